@@ -22,7 +22,7 @@ from ser import rat
 from props import c06 as base
 
 LEAN_MODULE = "Optyx.Props.C07"
-EXTRA_MODULES = ["Optyx.Props.PinsC07", "Optyx.Props.SolveTie", "Optyx.Props.StateTie"]   # transcription anchors (harness/source_pins.py)
+EXTRA_MODULES = ["Optyx.Props.PinsC07", "Optyx.Props.SolveTie", "Optyx.Props.StateTie", "Optyx.Props.BuildTie"]   # transcription anchors (harness/source_pins.py)
 THEOREMS = [
     "Optyx.Props.C07.lp_objective_value",
     "Optyx.Props.C07.scipy_objective_value",
@@ -38,6 +38,8 @@ THEOREMS = [
     "Optyx.Props.SolveTie.finish_objective_eq",
     "Optyx.Props.SolveTie.solutionKwargs_pin",
     "Optyx.Props.StateTie.edits_are_source",
+    "Optyx.Props.BuildTie.compile_step",
+    "Optyx.Props.BuildTie.compileVec_step",
     "Optyx.Props.PinsC07.anchors",
 ]
 ASSUMPTIONS = [
